@@ -1,13 +1,13 @@
 """Named history generators used by campaign shards: name -> fn(machine, rng, job) -> (oplist, meta)."""
-from .drivers import history, funcs, twins
+from .drivers import history, funcs, twins, textfam
 
 
 def gen_history(m, rng, job):
     g = history.Gen(m, rng, history.PROFILES[job['profile']], maxlen=job.get('maxlen', 8),
-                    odd=job.get('odd', 0.0), more=job.get('more', 0.3), anstr=job.get('anstr', 0.15))
+                    odd=job.get('odd', 0.0), more=job.get('more', 0.3), anstr=job.get('anstr', 0.15), alpha=job.get('alpha'))
     return g.run(job.get('nops', 10), epilogue=job.get('epilogue', ())), {}
 
 
 GENERATORS = {'history': gen_history, 'render_family': history.gen_render_family, 'parse_input': history.gen_parse_input,
-              'pgs': funcs.gen_pgs, 's2d': funcs.gen_s2d, 'pcs': funcs.gen_pcs, 'helper': funcs.gen_helper,
-              'twins': twins.gen_twins, 'aset': funcs.gen_aset, 'aset_extra': funcs.gen_aset_extra}
+              'pgs': funcs.gen_pgs, 's2d': funcs.gen_s2d, 'pcs': funcs.gen_pcs, 'pcs_boundary': funcs.gen_pcs_boundary, 'helper': funcs.gen_helper,
+              'twins': twins.gen_twins, 'text_family': textfam.gen_text_family, 'aset': funcs.gen_aset, 'aset_extra': funcs.gen_aset_extra}
